@@ -577,11 +577,18 @@ impl Renderer {
                 } else {
                     self.word("PRINT");
                 }
+                let mut prev_was_expr = false;
                 for it in items {
                     match it {
                         PrintItem::Expr(e) => {
                             self.gap();
-                            self.expr(e);
+                            if prev_was_expr {
+                                // juxtaposed items: a redundant parenthesis here would be read
+                                // as a subscript of the preceding variable
+                                self.expr_inner(e);
+                            } else {
+                                self.expr(e);
+                            }
                         }
                         PrintItem::Semi => {
                             self.tight();
@@ -592,6 +599,7 @@ impl Renderer {
                             self.raw(",");
                         }
                     }
+                    prev_was_expr = matches!(it, PrintItem::Expr(_));
                 }
             }
             Stmt::If { cond, then, els } => {
